@@ -350,6 +350,22 @@ def _run_session(seed: int, bounded: bool) -> dict[str, Any]:
         return {"events": [dict(EVD, ev="exception")], "meta": f"seed={seed} bounded={bounded} {type(exc).__name__}: {exc}"}
 
 
+def _run_unbounded(seed: int) -> dict[str, Any]:
+    return _run_session(seed, False)
+
+
+def _run_bounded(seed: int) -> dict[str, Any]:
+    return _run_session(seed, True)
+
+
+def _run_pingpong(seed: int) -> dict[str, Any]:
+    return _run_special(_pingpong_session, seed)
+
+
+def _run_abandoned(seed: int) -> dict[str, Any]:
+    return _run_special(_abandoned_sender_session, seed)
+
+
 def _blocking_session(seed: int) -> dict[str, Any]:
     """SSLStreamTransport over a real socket pair against a threaded stdlib peer (fragmented writes)."""
     from easynetwork.lowlevel.api_sync.transports.socket import SSLStreamTransport
@@ -436,11 +452,13 @@ def run(chk: Check) -> None:
         "(reader parked before the writer sends, silent peer until the request is complete) and sessions in which a queued sender is cancelled under back-pressure"
     )
     _model(chk, quick)
-    rec = [_run_session(chk.seed * 1009 + i, False) for i in range(40 if quick else 600)]
-    rec_b = [_run_session(chk.seed * 4001 + i, True) for i in range(6 if quick else 60)]
+    from ..common import pmap
+
+    rec = pmap(_run_unbounded, [chk.seed * 1009 + i for i in range(40 if quick else 3000)], min_items=100)
+    rec_b = pmap(_run_bounded, [chk.seed * 4001 + i for i in range(6 if quick else 300)], min_items=100)
     rec_s = [_blocking_session(chk.seed * 17 + i) for i in range(6 if quick else 60)]
-    rec_p = [_run_special(_pingpong_session, chk.seed * 7919 + i) for i in range(12 if quick else 200)]
-    rec_a = [_run_special(_abandoned_sender_session, chk.seed * 6007 + i) for i in range(8 if quick else 100)]
+    rec_p = pmap(_run_pingpong, [chk.seed * 7919 + i for i in range(12 if quick else 1000)], min_items=100)
+    rec_a = pmap(_run_abandoned, [chk.seed * 6007 + i for i in range(8 if quick else 500)], min_items=100)
     allrec = rec + rec_b + rec_s + rec_p + rec_a
     slim = [{"events": traces.uniform(t["events"], EVD)} for t in allrec]
     res = traces.validate("TLSStreamTrace", slim, cfg_text=TRACE_CFG, parallel=8, chunk=200)
